@@ -136,14 +136,18 @@ func c19TypeNames(repo, out string) {
 			hasDefault = true
 			continue
 		}
-		if len(cc.List) != 1 || len(cc.Body) != 1 {
+		if len(cc.Body) != 1 {
 			die("ColAuto.Infer: unexpected shape of a direct case")
 		}
 		as, ok := cc.Body[0].(*ast.AssignStmt)
 		if !ok || len(as.Lhs) != 1 || len(as.Rhs) != 1 || exprText(as.Lhs[0]) != "c.Data" {
 			die("ColAuto.Infer: direct case %s does not assign c.Data", exprText(cc.List[0]))
 		}
-		arms = append(arms, fmt.Sprintf("  (%s, %s)", coqStr(exprText(cc.List[0])), coqStr(exprText(as.Rhs[0]))))
+		// `case A, B:` is an arm per label (Go rejects duplicate constant labels, so the order of the arms is immaterial:
+		// the model looks a type up in this list)
+		for _, lab := range cc.List {
+			arms = append(arms, fmt.Sprintf("  (%s, %s)", coqStr(exprText(lab)), coqStr(exprText(as.Rhs[0]))))
+		}
 	}
 	if !hasDefault || len(arms) < 5 {
 		die("ColAuto.Infer: direct switch has %d arms, default=%v", len(arms), hasDefault)
